@@ -178,6 +178,11 @@ impl RtpsWriterProxy {
 
     // Iterate over all SequenceNumbers (indices) in the advertised range.
     for s in relevant_interval {
+      // The advertised range comes from the network and can be arbitrarily large, but a
+      // single ACKNACK can request at most 256 sequence numbers. Do not collect more.
+      if missing_seqnums.len() >= 256 {
+        break;
+      }
       match known_head {
         None => missing_seqnums.push(s), // no known changes left => s is missing
         Some(known_sn) => {
